@@ -93,7 +93,7 @@ OPS = ["lan_send", "refresh", "lan_auth", "auth"]
 
 
 def run(plan):
-    s = Session(plan, max_iterations=6000)
+    s = Session(plan, max_iterations=6000 + 8 * plan.get("directive", {}).get("flood", {}).get("n", 0))
     w = s.world
     dev = s.dev
     res = Result()
@@ -165,7 +165,7 @@ def run(plan):
     if w.net.protocol_exceptions:
         res.probes["exception_inside_data_received"] = len(w.net.protocol_exceptions)
     res.key = res.digest
-    res.nontrivial = any(k.startswith("byz") or k.startswith("close_after_hs") or k in ("raw_reply", "hs_raw", "connect_accept_junk")
+    res.nontrivial = any(k.startswith("byz") or k.startswith("close_after_hs") or k.startswith("flood") or k in ("raw_reply", "hs_raw", "connect_accept_junk")
                          for k in dev.fired)
     return res
 
@@ -286,4 +286,14 @@ def space(tier):
             p["phase"] = "hs"       # the junk must hit the first connection, which the handshake opens
         return p
     sp.add("peer_speaks_first", 3000 if tier == "quick" else 200_000, junk)
+
+    def flood(j, rng):
+        """Hundreds to thousands of small well-formed packets ahead of (or instead of) the real reply."""
+        n = [40, 300, 1200, 2500][j % 4]
+        kind = ["hs_response", "error", "enc_valid", "short_type"][(j // 4) % 4]
+        phase = ["data", "hs"][(j // 16) % 2]
+        p = make_plan(3, rng.choice(["lan_send", "refresh"] if phase == "data" else OPS), phase, None, rng)
+        p["directive"] = {"flood": {"n": n, "kind": kind}, "then_honest": True, "seed": rng.randrange(1 << 20)}
+        return p
+    sp.add("packet_floods", 32 if tier == "quick" else 640, flood, exhaustive=True)
     return sp
